@@ -119,6 +119,7 @@ func (rd *reader) run(d *Driver, present []atomic.Bool, stop chan struct{}, wg *
 	}
 	ctx := context.Background()
 	var lastList *event
+	held := make([]heldRecord, len(d.cfg.Provs))
 	lastGet := make([]*event, len(d.cfg.Provs))
 	for iter := 0; ; iter++ {
 		select {
@@ -158,6 +159,13 @@ func (rd *reader) run(d *Driver, present []atomic.Bool, stop chan struct{}, wg *
 			var viaResults bool
 			if iter%2 == 0 {
 				pi, err = d.pc.Get(ctx, ids.Peer(p))
+				// a record handed out is a value of a completed update: it stays what it was, whatever is fetched later
+				if h := held[i]; h.p != nil && (h.p.Lag != h.lag || h.p.LastAdvertisementTime != h.t) {
+					rd.bad = fmt.Sprintf("a record of %s handed out earlier was changed in place (lag %d -> %d, time %s -> %s)", p, h.lag, h.p.Lag, h.t, h.p.LastAdvertisementTime)
+				}
+				if err == nil && pi != nil {
+					held[i] = heldRecord{pi, pi.Lag, pi.LastAdvertisementTime}
+				}
 			} else {
 				viaResults = true
 				var res []model.ProviderResult
@@ -191,6 +199,12 @@ func (rd *reader) run(d *Driver, present []atomic.Bool, stop chan struct{}, wg *
 			runtime.Gosched()
 		}
 	}
+}
+
+type heldRecord struct {
+	p   *model.ProviderInfo
+	lag int
+	t   string
 }
 
 // RunReaders is "harness c07": replay behaviours with concurrent reader goroutines and write the
